@@ -227,6 +227,24 @@ func (rt *RateTotal) Matches(rt2 *RateTotal) bool {
 	return false
 }
 
+// clone provides an independent copy of the rate total.
+func (rt *RateTotal) clone() *RateTotal {
+	nrt := new(RateTotal)
+	nrt.Key = rt.Key
+	nrt.Country = rt.Country
+	nrt.Ext = rt.Ext
+	nrt.Base = rt.Base
+	nrt.Percent = rt.Percent
+	nrt.Amount = rt.Amount
+	if rt.Surcharge != nil {
+		nrt.Surcharge = &RateTotalSurcharge{
+			Percent: rt.Surcharge.Percent,
+			Amount:  rt.Surcharge.Amount,
+		}
+	}
+	return nrt
+}
+
 // Clone creates a new total with the same values as the original, but in an
 // independent object.
 func (t *Total) Clone() *Total {
@@ -247,19 +265,7 @@ func (t *Total) Clone() *Total {
 		}
 		nt.Categories[i].Rates = make([]*RateTotal, len(ct.Rates))
 		for j, rt := range ct.Rates {
-			nt.Categories[i].Rates[j] = new(RateTotal)
-			nt.Categories[i].Rates[j].Key = rt.Key
-			nt.Categories[i].Rates[j].Country = rt.Country
-			nt.Categories[i].Rates[j].Ext = rt.Ext
-			nt.Categories[i].Rates[j].Base = rt.Base
-			nt.Categories[i].Rates[j].Percent = rt.Percent
-			nt.Categories[i].Rates[j].Amount = rt.Amount
-			if rt.Surcharge != nil {
-				nt.Categories[i].Rates[j].Surcharge = &RateTotalSurcharge{
-					Percent: rt.Surcharge.Percent,
-					Amount:  rt.Surcharge.Amount,
-				}
-			}
+			nt.Categories[i].Rates[j] = rt.clone()
 		}
 	}
 	nt.Sum = t.Sum
@@ -290,16 +296,22 @@ func (t *Total) Merge(t2 *Total) *Total {
 			catTotal.Retained = ct.Retained
 			catTotal.Amount = ct.Amount
 			catTotal.amount = ct.amount
-			catTotal.Surcharge = ct.Surcharge
-			catTotal.Rates = append(catTotal.Rates, ct.Rates...)
+			if ct.Surcharge != nil {
+				sc := *ct.Surcharge
+				catTotal.Surcharge = &sc
+			}
+			for _, rt := range ct.Rates {
+				catTotal.Rates = append(catTotal.Rates, rt.clone())
+			}
 			nt.Categories = append(nt.Categories, catTotal)
 		} else {
 			catTotal.Amount = catTotal.Amount.Add(ct.Amount)
-			if ct.Surcharge != nil && catTotal.Surcharge != nil {
-				ns := catTotal.Surcharge.Add(*ct.Surcharge)
+			if ct.Surcharge != nil {
+				ns := *ct.Surcharge
+				if catTotal.Surcharge != nil {
+					ns = catTotal.Surcharge.Add(ns)
+				}
 				catTotal.Surcharge = &ns
-			} else {
-				catTotal.Surcharge = ct.Surcharge
 			}
 			// Merge the rates
 			for _, rt := range ct.Rates {
@@ -313,20 +325,7 @@ func (t *Total) Merge(t2 *Total) *Total {
 					}
 				}
 				if rateTotal == nil {
-					rateTotal = new(RateTotal)
-					rateTotal.Key = rt.Key
-					rateTotal.Country = rt.Country
-					rateTotal.Ext = rt.Ext
-					rateTotal.Base = rt.Base
-					rateTotal.Percent = rt.Percent
-					if rt.Surcharge != nil {
-						rateTotal.Surcharge = &RateTotalSurcharge{
-							Percent: rt.Surcharge.Percent,
-							Amount:  rt.Surcharge.Amount,
-						}
-					}
-					rateTotal.Amount = rt.Amount
-					catTotal.Rates = append(catTotal.Rates, rateTotal)
+					catTotal.Rates = append(catTotal.Rates, rt.clone())
 				} else {
 					// Merge the amounts
 					rateTotal.Base = rateTotal.Base.Add(rt.Base)
